@@ -5,7 +5,7 @@ Helper lemmas for C34 (redirect model): what `build`, `transmit*`, `follow`, `re
 -/
 namespace Ioflo.Redirect
 
-instance {ε α : Type} [DecidableEq ε] [DecidableEq α] : DecidableEq (Except ε α) := fun a b =>
+scoped instance {ε α : Type} [DecidableEq ε] [DecidableEq α] : DecidableEq (Except ε α) := fun a b =>
   match a, b with
   | .ok x, .ok y => if h : x = y then isTrue (by rw [h]) else isFalse (fun he => h (by cases he; rfl))
   | .error x, .error y => if h : x = y then isTrue (by rw [h]) else isFalse (fun he => h (by cases he; rfl))
